@@ -12,6 +12,7 @@ from linear_operator.operators.diag_linear_operator import ConstantDiagLinearOpe
 from linear_operator.operators.low_rank_root_linear_operator import LowRankRootLinearOperator
 from linear_operator.operators.sum_batch_linear_operator import SumBatchLinearOperator
 
+from linear_operator.utils.broadcasting import _matmul_broadcast_shape
 from linear_operator.utils.cholesky import psd_safe_cholesky
 from linear_operator.utils.memoize import cached
 
@@ -167,13 +168,13 @@ class LowRankRootAddedDiagLinearOperator(AddedDiagLinearOperator):
                 "Got a {} of size {}.".format(self.__class__.__name__, self.size())
             )
 
-        if self.dim() == 2 and right_tensor.dim() == 1:
-            if self.shape[-1] != right_tensor.numel():
-                raise RuntimeError(
-                    "LinearOperator (size={}) cannot be multiplied with right-hand-side Tensor (size={}).".format(
-                        self.shape, right_tensor.shape
-                    )
-                )
+        _matmul_broadcast_shape(
+            self.shape,
+            right_tensor.shape,
+            error_msg="LinearOperator (size={}) cannot be multiplied with right-hand-side Tensor (size={}).".format(
+                self.shape, right_tensor.shape
+            ),
+        )
 
         squeeze_solve = False
         if right_tensor.ndimension() == 1:
